@@ -506,6 +506,25 @@ def analyse(facts, tier):
                             seen_txt.append('literal')
                         if short(callee_name(x)) == 'setErrorString' and any(y.get('k') == 'StringLiteral' and y.get('len', 0) > 0 for y in walk(x.get('a', []))):
                             seen_txt.append('setErrorString')
+            # a local helper that does the same with the text it is given: setErrorString(<its parameter>) unconditionally or under
+            # <error text>.empty(); the wrapper passes a non-empty literal
+            for cb in cand_blocks:
+                for st in fn.cfg.blocks[cb]['stmts']:
+                    for x in calls_in(st['s']):
+                        for cf in facts.fns.get(callee_name(x), [])[:1]:
+                            if not is_local_helper(fn, cf):
+                                continue
+                            pidx = {p_['id']: i_ for i_, p_ in enumerate(cf.params)}
+                            for b2, j2, st2 in cf.cfg.stmts():
+                                for y in calls_in(st2['s']):
+                                    # the text parameter, possibly wrapped into the std::string the setter takes
+                                    prm = [z.get('id') for z in walk(y.get('a') or []) if isinstance(z, dict) and z.get('k') == 'DeclRefExpr' and z.get('id') in pidx]
+                                    if short(callee_name(y)) == 'setErrorString' and len(prm) == 1:
+                                        gf2 = guard_facts(cf, b2, st2)
+                                        guarded_ok = all(f[0] == 'truth' and f[2] and any(short(callee_name(c)) == 'empty' for c in calls_in(f[1])) for f in gf2)
+                                        arg = (x.get('a') or [])[pidx[prm[0]]] if len(x.get('a') or []) > pidx[prm[0]] else None
+                                        if guarded_ok and arg is not None and any(z.get('k') == 'StringLiteral' and z.get('len', 0) > 0 for z in walk(arg)):
+                                            seen_txt.append('literal')
             if 'literal' in seen_txt:
                 ok = True
             elif 'setErrorString' in seen_txt:
@@ -631,14 +650,21 @@ def r7_model_table(facts):
     all three compute the same function: evaluate the structured code of each for the four combinations (the last model action on the
     path wins) and compare the tables."""
     out = []
-    def action(x):
+    def action(x, env=None):
         ap = assign_parts(x)
         if ap and strip(ap[0]).get('k') == 'MemberExpr' and short(strip(ap[0])['n']) == 'm_volumeScale' and mentions(ap[1], member_named('volumeModel')):
             return 'bank default'
         if isinstance(x, dict) and 'callee' in x and short(callee_name(x)) == 'setVolumeScaleModel' and x.get('a'):
             a = strip(x['a'][0])
-            while a is not None and (a.get('k') or '').endswith('CastExpr'):
-                a = strip(a.get('e'))
+            while a is not None and ((a.get('k') or '').endswith('CastExpr') or a.get('k') == 'ConditionalOperator'):
+                if a.get('k') == 'ConditionalOperator':
+                    # the model is chosen inside the argument: `set(log != 0 ? Native : requested)`
+                    v = cond_value(a['cnd'], env) if env is not None else None
+                    if v is None:
+                        return 'the requested model'
+                    a = strip(a['l'] if v else a['r'])
+                else:
+                    a = strip(a.get('e'))
             if a is not None and a.get('enumc') and 'Native' in (a.get('n') or ''):
                 return 'NativeOPN2'
             return 'the requested model'
@@ -673,7 +699,7 @@ def r7_model_table(facts):
                 return a if a != last else b       # conditions on other state (setupLocked): the arm that acts
             return run(t.get('then') if v else t.get('else'), env, last)
         for x in walk(t):
-            a = action(x)
+            a = action(x, env)
             if a:
                 last = a
         return last
@@ -833,9 +859,15 @@ def r7_auto_sentinel(facts):
         if not fns or fns[0].tree is None:
             continue
         fn = fns[0]
+        al7 = alias_defs(fn.d)
+        # a selection between two sources: an if / else statement or a conditional expression
+        triples = []
         for x in walk(fn.tree):
-            if not (isinstance(x, dict) and x.get('k') == 'IfStmt' and x.get('cond') is not None and x.get('else') is not None):
-                continue
+            if isinstance(x, dict) and x.get('k') == 'IfStmt' and x.get('cond') is not None and x.get('else') is not None:
+                triples.append({'cond': x['cond'], 'then': subst(x.get('then'), al7), 'else': subst(x.get('else'), al7), 'ln': x.get('ln')})
+            if isinstance(x, dict) and x.get('k') == 'ConditionalOperator':
+                triples.append({'cond': x['cnd'], 'then': subst(x.get('l'), al7), 'else': subst(x.get('r'), al7), 'ln': x.get('ln')})
+        for x in triples:
             lits = literals(x['cond'], True)
             if len(lits) != 1 or lits[0][0] != 'cmp':
                 continue
